@@ -83,7 +83,9 @@ pub fn cases(rng: &mut Rng, count: usize, _tier: &str) -> Vec<Case> {
         let ok_text = HpoTermId::try_from(s.as_str()).map_or(false, |x| x == t);
         let ok_shape = s.len() >= 10 && s.starts_with("HP:") && s[3..].bytes().all(|b| b.is_ascii_digit()) && s[3..].parse::<u64>() == Ok(u64::from(id));
         let ok_bytes = HpoTermId::from(t.to_be_bytes()) == t;
-        if !(ok_text && ok_shape && ok_bytes) {
+        // the other numeric doors agree: from_u32, From<usize>, as_u32, to_usize
+        let ok_doors = HpoTermId::from_u32(id) == t && HpoTermId::from(id as usize) == t && t.as_u32() == id && t.to_usize() == id as usize;
+        if !(ok_text && ok_shape && ok_bytes && ok_doors) {
             *failures += 1;
         }
     };
